@@ -118,6 +118,7 @@ theorem inv_astep (hf : Fixed c) (h : Inv c s) (hen : enabled s t = true) : Inv 
           simp only [crashes_false hf, Bool.false_eq_true, if_false]
           cases i with
           | xchgInit => exact inv_c_xchgInit h is hpc
+          | giveInit => exact inv_c_giveInit h is hpc
           | xchgTmp => exact inv_c_xchgTmp h is hpc
           | loadTmp => exact inv_c_loadTmp h is hpc
           | loadPending =>
